@@ -100,7 +100,10 @@ def scan_behaviours(path, prop):
 
 def scan_trace(path, prop):
     """distinct non-trivial scenarios in a reset-separated trace"""
-    pred = NONTRIVIAL.get(prop, lambda ln: True)
+    return scan_trace_pred(path, NONTRIVIAL.get(prop, lambda ln: True))
+
+
+def scan_trace_pred(path, pred):
     total = 0
     nontrivial = 0
     cur_hit = False
